@@ -1,5 +1,6 @@
 import StepModel.ExpDecl
 import StepModel.ExpDeclSyn
+import StepModel.ExpLex
 /-! Line-protocol driver for the exppp model (property C07).
 
   pp <linelen> <t:0|1> <c:0|1> SCHEMA…      -> `P <escaped text>` | `parse-error`
@@ -217,6 +218,11 @@ def handle (line : String) : String :=
       | some e => "T " ++ " ".intercalate ((toks (sharedOf e) e false none).map wordOfTok)
       | none => "parse-error"
     | none => "bad-op"
+  | "lex" :: h :: [] =>
+    -- the scanner model on a piece of text (hex): the tokens it reads, or lex-error
+    match lex (unhexL h.toList) with
+    | some ts => "L " ++ " ".intercalate (ts.map wordOfTok)
+    | none => "lex-error"
   | "ty" :: rest =>
     match rdTy.run rest with
     | some (t, []) => "D " ++ " ".intercalate ((tyToks t).map dtokStr)
